@@ -939,6 +939,14 @@ func (fr *Frame) execTypeAssert(ins *ssa.TypeAssert) {
 	}
 	ok = tEq(tag, tInt(int64(te.TypeTag(at))))
 	v = te.Unbox(at, pay)
+	if fr.vc.sess.yamlTree {
+		// values of a decoded YAML tree: an interface never holds a typed-nil map or slice (listed assumption)
+		switch at.Underlying().(type) {
+		case *types.Map:
+			fr.vc.assume(tImp(ok, tNot(tEq(v, tInt(0)))))
+			fr.vc.assumes["interface values never hold typed-nil maps (values of a decoded YAML tree)"] = true
+		}
+	}
 	if !ins.CommaOk {
 		fr.safe("type-assert", ok, ins, "type assertion to "+types.TypeString(at, nil)+" succeeds")
 		fr.setVal(ins, v)
